@@ -131,7 +131,28 @@ def run(c, a):
     obligs = [o for o in obligs if o["leaf"].startswith(want)]
     if len(obligs) < 50:
         raise Broken("too few obligations (%d)" % len(obligs))
+    base = len(obligs)
+    if c.pid == "C12":
+        # variants: the leaf sits in the middle of an event batch ("tail"), in a blob that needs UTF-8 repair ("dirty"), and in
+        # a message whose other namespace fields hold an unmapped name ("fill") - none may change the result
+        more = []
+        for o in obligs:
+            through_events = "events" in o["path"]
+            for variant in ("tail", "dirty", "fill"):
+                if variant == "tail" and not through_events:
+                    continue
+                if variant == "dirty" and not o["inblob"]:
+                    continue
+                d = dict(o)
+                d.update(variant=variant, id=base + len(more) + 1)
+                more.append(d)
+        obligs = obligs + more
     recs = run_obligations(c, obligs, "ob")
+    out_of_scope = [r_ for r_ in recs if r_.get("scope")]
+    recs = [r_ for r_ in recs if not r_.get("scope")]
+    if out_of_scope:
+        c.notes.append("%d 'dirty' obligations skipped: the path does not exist in the 1.22 schema, so a blob written by a server "
+                       "of that vintage cannot hold it" % len(out_of_scope))
     unbuilt = [r_ for r_ in recs if not r_["built"]]
     if len(unbuilt) > 0.02 * len(recs):
         raise Broken("%d of %d obligations could not be materialised: %s" % (len(unbuilt), len(recs), unbuilt[0]["err"]))
@@ -151,9 +172,13 @@ def run(c, a):
                                                                                    rec["in"], rec["out"], rec["err"]),
                         {"kind": "obligation", "record": rec})
     roots = len({r_["type"] for r_ in recs})
+    if c.pid == "C14":
+        import p_pipeline
+        c.coverage.update(p_pipeline.sa_direction(c))
     c.coverage.update({
         "schema_types": int(m.group(1)) if m else 0, "schema_fields": int(m.group(2)) if m else 0,
-        "path_states": r.distinct, "obligations": len(obligs), "executed": len(recs), "unbuilt": len(unbuilt),
+        "path_states": r.distinct, "paths": base, "obligations": len(obligs), "executed": len(recs), "unbuilt": len(unbuilt),
+        "dirty_out_of_scope": len(out_of_scope),
         "root_types_with_leaf": roots, "violations_by_cause": {"%s/%s/%s" % k: v for k, v in by_cause.items()},
         "evaluations": len(recs), "distinct_nontrivial": len(obligs), "exhaustive": True,
         "rule": "every (root message type, structural path) to a %s leaf of the real schema, enumerated by TLC with each type at "
